@@ -60,7 +60,13 @@ func (gi *gitlabImporter) ImportAll(ctx context.Context, repo *cache.RepoCache, 
 	go func() {
 		defer close(out)
 
-		for issue := range Issues(ctx, gi.client, gi.conf[confKeyProjectID], since) {
+		// set before the issues channel is closed, read once it is
+		var listingErr error
+		issues := Issues(ctx, gi.client, gi.conf[confKeyProjectID], since, func(err error) {
+			listingErr = err
+		})
+
+		for issue := range issues {
 
 			b, err := gi.ensureIssue(repo, issue)
 			if err != nil {
@@ -94,6 +100,12 @@ func (gi *gitlabImporter) ImportAll(ctx context.Context, repo *cache.RepoCache, 
 				out <- core.NewImportError(err, "")
 				return
 			}
+		}
+
+		// Without this error the import would be considered complete and the "last import" time would
+		// advance: the issues that could not be listed would never be imported.
+		if listingErr != nil {
+			out <- core.NewImportError(fmt.Errorf("issue listing: %v", listingErr), "")
 		}
 	}()
 
